@@ -12,5 +12,19 @@ TEXT = {
         'note': NOTE_COMMON,
         'technique': 'Lean 4 proof: regenerated model = reference spec (per-slot simp obligations + carry-vector lemmas); differential correspondence as tie and search',
     },
+    'C03': {
+        'text': 'Machine-checked: the Go helpers addU16/adcU16/sbcU16 (regenerated) equal the arithmetic definitions (carry out of bit 11/15, '
+                'signed overflow, Z on 16 bits) for ALL 2^32 operand pairs x carry x F — symbolic proof from the ripple-carry theory of BitVec, '
+                'no enumeration; plus kernel-checked Step-level theorems for every ss encoding of ADD HL/IX/IY, ADC/SBC HL, INC/DEC ss incl. doubling forms.',
+        'note': NOTE_COMMON,
+        'technique': 'Lean 4 proof: symbolic carry-vector lemmas (BitVec.carry + omega) + per-slot simp obligations; differential correspondence as tie',
+    },
+    'C16': {
+        'text': 'Machine-checked symbolic bit-vector theorems over the definitions regenerated from flag.go/z80.go: GetFlag = any-named-bit, '
+                'SetFlag = F|m, ResetFlag = F&~m for all masks and all F, frame (A and all other fields unchanged), constants = Z80 bit positions, '
+                'SetU16;U16 identity on all 65536 values.',
+        'note': NOTE_COMMON,
+        'technique': 'Lean 4 proof over regenerated accessor definitions (symbolic BitVec reasoning)',
+    },
 }
 NOT_APPLICABLE = {}
